@@ -103,6 +103,27 @@ def show_val(v) -> str:
     if isinstance(v, fp.Context): return '(c)'
     return f'(n {canon_num(v)})'
 
+def is_value(v) -> bool:
+    """a Python object with an FPy value form (bool / number / context / tuple / list of those)"""
+    from fpy2.number import Float, RealFloat
+    import enum
+    if isinstance(v, enum.Enum): return False
+    if isinstance(v, (bool, int, float, Fraction, Float, RealFloat, fp.Context)): return True
+    if isinstance(v, (list, tuple)): return all(is_value(x) for x in v)
+    return False
+
+def is_foreign_value(v) -> bool:
+    """an opaque constant a program may hold but not operate on (a string, None)"""
+    return v is None or isinstance(v, str)
+
+def val_expr(v) -> str:
+    """a Python value as the core-language expression that rebuilds it (lists are allocated anew at each evaluation)"""
+    if isinstance(v, bool): return f'(bool {b01(v)})'
+    if isinstance(v, list): return '(list ' + ' '.join(val_expr(x) for x in v) + ')'
+    if isinstance(v, tuple): return '(tuple ' + ' '.join(val_expr(x) for x in v) + ')'
+    if isinstance(v, fp.Context): return '(ctx ' + ctx_tok(desc_of_ctx(v)) + ')'
+    return f'(num {num_tok(v)})'
+
 # ---------------------------------------------------------------- AST export
 
 UNARY = {A.Neg: 'neg', A.Abs: 'fabs', A.Sqrt: 'sqrt', A.Ceil: 'ceil', A.Floor: 'floor', A.Trunc: 'trunc',
@@ -112,6 +133,13 @@ BINARY = {A.Add: 'add', A.Sub: 'sub', A.Mul: 'mul', A.Div: 'div', A.Copysign: 'c
 PREDS = {A.IsNan: 'isnan', A.IsInf: 'isinf', A.IsFinite: 'isfinite', A.Signbit: 'signbit', A.IsNormal: 'isnormal'}
 CMP = {'<': 'lt', '<=': 'le', '>': 'gt', '>=': 'ge', '==': 'eq', '!=': 'ne'}
 
+OPAQUE_NAMES = {A.Acos: 'acos', A.Asin: 'asin', A.Atan: 'atan', A.Cos: 'cos', A.Sin: 'sin', A.Tan: 'tan', A.Acosh: 'acosh', A.Asinh: 'asinh', A.Atanh: 'atanh',
+                A.Cosh: 'cosh', A.Sinh: 'sinh', A.Tanh: 'tanh', A.Exp: 'exp', A.Exp2: 'exp2', A.Expm1: 'expm1', A.Log: 'log', A.Log10: 'log10', A.Log1p: 'log1p',
+                A.Log2: 'log2', A.Erf: 'erf', A.Erfc: 'erfc', A.Lgamma: 'lgamma', A.Tgamma: 'tgamma', A.Atan2: 'atan2',
+                A.ConstPi: 'const_pi', A.ConstE: 'const_e', A.ConstLog2E: 'const_log2e', A.ConstLog10E: 'const_log10e', A.ConstLn2: 'const_ln2', A.ConstPi_2: 'const_pi_2',
+                A.ConstPi_4: 'const_pi_4', A.Const1_Pi: 'const_1_pi', A.Const2_Pi: 'const_2_pi', A.Const2_SqrtPi: 'const_2_sqrt_pi', A.ConstSqrt2: 'const_sqrt2',
+                A.ConstSqrt1_2: 'const_sqrt1_2'}
+
 def pat_sexp(t) -> str:
     if isinstance(t, UnderscoreId): return '_'
     if isinstance(t, NamedId): return str(t)
@@ -119,10 +147,18 @@ def pat_sexp(t) -> str:
     raise Unsupported(f'target {type(t).__name__}')
 
 class Exporter:
-    def __init__(self):
+    def __init__(self, ext: bool = False, twins: dict | None = None, lenient: bool = False):
+        """`ext=True` (used by C04) turns on the desugarings of constructs the core model has no node for:
+        captured free variables (bound at function entry), nullary nan/inf, literal spellings, cast, round_at via the
+        operator table, fst/snd, size(·,0), empty, print, assert messages, primitives through their declared FPy twin.
+        The default (`ext=False`) is the historical behaviour every other check relies on."""
         self.funcs: dict[str, str] = {}     # name -> sexp
         self.env = None
         self.pending = []
+        self.ext = ext
+        self.lenient = lenient      # (ext only) print constructs the model cannot decide as opaque operators: text comparison only
+        self.twins = twins or {}
+        self.fresh = 0
 
     def static_py(self, e):
         """evaluate a context-constructor expression that has no free PROGRAM variables to a Python object
@@ -190,15 +226,79 @@ class Exporter:
             c = self.static_py(e)
         except Unsupported:
             return self.dynamic_ctx(e)
+        except Exception:
+            if not self.ext: raise
+            return self.dynamic_ctx(e)
         if not isinstance(c, fp.Context): raise Unsupported('context expression is not a context')
         return '(ctx ' + ctx_tok(desc_of_ctx(c)) + ')'
 
+    def expr_ext(self, e):
+        """desugarings of `ext` mode; None = not handled here"""
+        X = self.expr
+        if isinstance(e, A.ConstNan): return '(num Fn0)'
+        if isinstance(e, A.ConstInf): return '(num Fi0)'
+        if isinstance(e, A.NullaryOp):
+            if self.lenient and type(e) in OPAQUE_NAMES: return f'(const {OPAQUE_NAMES[type(e)]})'
+            raise Unsupported(f'mpfr-constant:{type(e).__name__}')
+        if isinstance(e, A.RoundAt): return f'(op round_at {X(e.first)} {X(e.second)})'
+        if isinstance(e, A.Cast): return f'(op cast {X(e.arg)})'
+        if isinstance(e, (A.Fst, A.Snd)):
+            # `a, b = t` (M-Tuple) inside an expression: a one-element comprehension binds the pair pattern
+            self.fresh += 1
+            v = f'@p{self.fresh}'
+            pat = f'(tup {v} _)' if isinstance(e, A.Fst) else f'(tup _ {v})'
+            return f'(index (comp (({pat} (list {X(e.arg)}))) (var {v})) (num Q0/1))'
+        if isinstance(e, A.Size):
+            k = e.second
+            if isinstance(k, A.Integer) and k.val == 0: return f'(len {X(e.first)})'     # "exact integer counts, no rounding"
+            if self.lenient: return f'(size {X(e.first)} {X(e.second)})'
+            raise Unsupported('size-of-inner-dimension')
+        if isinstance(e, A.Dim):
+            if self.lenient: return f'(dim {X(e.arg)})'
+            raise Unsupported('dim')
+        if isinstance(e, A.Empty):
+            # an uninitialised cell is the placeholder `(bool 0)`: reading one as a number is a TypeError on both sides
+            out = '(bool 0)'
+            for d in reversed(e.args):
+                out = f'(comp ((_ (range {X(d)}))) {out})'
+            return out
+        if isinstance(e, A.IsNormal):
+            if self.lenient: return f'(isnormal {X(e.arg)})'
+            raise Unsupported('isnormal')
+        if isinstance(e, A.Logb):
+            if self.lenient: return f'(logb {X(e.arg)})'
+            raise Unsupported('logb')
+        if self.lenient and type(e) in OPAQUE_NAMES:
+            return f'(op {OPAQUE_NAMES[type(e)]} ' + ' '.join(X(a) for a in e.args) + ')'
+        if isinstance(e, A.ForeignVal) and not isinstance(e.val, fp.Context):
+            return '(bool 1)'     # an opaque constant (assert message, None): only ever passed along or discarded
+        if isinstance(e, A.Call):
+            fn = e.fn
+            from fpy2.primitive import Primitive
+            if fn is print:
+                if e.kwargs: raise Unsupported('kwargs')
+                return '(tuple ' + ' '.join(X(a) for a in e.args) + ')'
+            if isinstance(fn, Primitive):
+                if e.kwargs: raise Unsupported('kwargs')
+                twin = self.twins.get(fn.name)
+                if twin is None: raise Unsupported('primitive-without-twin')
+                self.add_function(twin)
+                return f'(call {twin.ast.name} ' + ' '.join(X(a) for a in e.args) + ')'
+        return None
+
     def expr(self, e) -> str:
         X = self.expr
+        if self.ext:
+            r = self.expr_ext(e)
+            if r is not None: return r
         if isinstance(e, A.Var): return f'(var {e.name})'
         if isinstance(e, A.BoolVal): return f'(bool {b01(e.val)})'
         if isinstance(e, A.RationalVal):
-            v = e.as_real()
+            try:
+                v = e.as_real()
+            except Exception as ex:
+                if self.ext: raise Unsupported(f'literal:{type(ex).__name__}')
+                raise
             from fpy2.number import Float
             if isinstance(v, Float): return '(num F' + fv_tok(fv_of_obj(v)) + ')'
             return f'(num Q{v.numerator}/{v.denominator})'
@@ -255,6 +355,7 @@ class Exporter:
             raise Unsupported(f'call to {fn!r}')
         if isinstance(e, A.Attribute):
             return self.static_ctx(e)
+        if self.ext and isinstance(e, (A.UnaryOp, A.BinaryOp)): raise Unsupported(f'mpfr-op:{type(e).__name__}')
         raise Unsupported(f'expr {type(e).__name__}')
 
     def block(self, b) -> str:
@@ -264,6 +365,14 @@ class Exporter:
         X = self.expr
         if isinstance(s, A.Assign): return f'(assign {pat_sexp(s.target)} {X(s.expr)})'
         if isinstance(s, A.IndexedAssign):
+            if self.ext and len(s.indices) > 1:
+                # xs[i][j] = e : the value first, then xs[i] (which may fail) BEFORE j is even converted
+                idxs = [X(i) for i in s.indices]
+                self.fresh += 1
+                tv, tr = f'@v{self.fresh}', f'@r{self.fresh}'
+                out = f'(assign {tv} {X(s.expr)}) (assign {tr} (index (var {s.var}) {idxs[0]}))'
+                for k in idxs[1:-1]: out += f' (assign {tr} (index (var {tr}) {k}))'
+                return out + f' (iassign {tr} ({idxs[-1]}) (var {tv}))'
             return f'(iassign {s.var} (' + ' '.join(X(i) for i in s.indices) + f') {X(s.expr)})'
         if isinstance(s, A.IfStmt): return f'(if {X(s.cond)} {self.block(s.ift)} {self.block(s.iff)})'
         if isinstance(s, A.If1Stmt): return f'(if1 {X(s.cond)} {self.block(s.body)})'
@@ -272,7 +381,11 @@ class Exporter:
         if isinstance(s, A.ContextStmt):
             nm = '_' if isinstance(s.target, UnderscoreId) else str(s.target)
             return f'(with {X(s.ctx)} {nm} {self.block(s.body)})'
-        if isinstance(s, A.AssertStmt): return f'(assert {X(s.test)})'
+        if isinstance(s, A.AssertStmt):
+            if self.ext and s.msg is not None:
+                # the message is evaluated only when the test fails, then the assertion error is raised
+                return f'(if1 (not {X(s.test)}) ((effect {X(s.msg)}) (assert (bool 0))))'
+            return f'(assert {X(s.test)})'
         if isinstance(s, A.EffectStmt): return f'(effect {X(s.expr)})'
         if isinstance(s, A.ReturnStmt): return f'(return {X(s.expr)})'
         if isinstance(s, A.PassStmt): return '(pass)'
@@ -285,23 +398,30 @@ class Exporter:
         self.funcs[name] = None   # placeholder against recursion
         saved_env = getattr(self, 'env', None)
         self.env = ast.env
-        if ast.free_vars:
-            # captured Python values: only FPy functions are supported (they appear through Call.fn)
-            pass
+        entry = ''
+        if self.ext:
+            # captured Python values: converted at every activation (`to_value` rebuilds containers), i.e. bound at entry
+            for nm in sorted(str(v) for v in ast.free_vars):
+                try: val = ast.env[nm]
+                except KeyError: continue
+                if is_value(val): entry += f'(assign {nm} {val_expr(val)}) '
+                elif is_foreign_value(val): entry += f'(assign {nm} (bool 1)) '
         c = ast.ctx
         if c is None: cs = '_'
         elif isinstance(c, fp.Context): cs = ctx_sexp(c)
         else: raise Unsupported('FPCoreContext')
         params = ' '.join(str(a.name) for a in ast.args)
-        self.funcs[name] = f'(func {name} ({params}) {cs} {self.block(ast.body)})'
+        body = self.block(ast.body)
+        if self.ext and entry: body = '(' + entry + body[1:]
+        self.funcs[name] = f'(func {name} ({params}) {cs} {body})'
         self.env = saved_env
 
     def program(self) -> str:
         return '(' + ' '.join(v for v in self.funcs.values() if v) + ')'
 
-def export_program(fn) -> tuple[str, str]:
+def export_program(fn, ext: bool = False, twins: dict | None = None, lenient: bool = False) -> tuple[str, str]:
     """(entry name, '(func …)(func …)' list sexp) for a real fpy2 Function and its FPy callees"""
-    ex = Exporter()
+    ex = Exporter(ext=ext, twins=twins, lenient=lenient)
     ex.add_function(fn)
     return fn.ast.name, ex.program()
 
